@@ -379,7 +379,7 @@ def linear_forward(chk, helper_nodes):
                 chk.require("C07.R1", f"{h[0].mi.rel}:{p.end[2]}", ok, f"linear dispatch passes (input, other, bias) in order: `{U(p.end[1])}`", h[0].name, "linear dispatch arguments", "any quantized linear: weight and input swapped or bias dropped")
 
 
-def mm_handlers(chk):
+def mm_handlers(chk, r1="C07.R1", r2="C07.R2", r5="C07.R5"):
     repo = chk.repo
     hs = handlers(repo)["qbytes"]
     helpers = {}
@@ -417,17 +417,17 @@ def mm_handlers(chk):
             for status, val, trace in res:
                 path = ", ".join(f"{'' if v else 'not '}{t[:30]}" for t, v in trace)
                 if status == "typeerr":
-                    rule = "C07.R2" if "not matched by its scales" in val else "C07.R1"
+                    rule = r2 if "not matched by its scales" in val else r1
                     chk.bad(rule, site, h.name, f"{h.name}: input {di}, other {do}: {_gen(val)}"[:140], f"{what} (path: {path[:100]}): {val}",
                             f"{'torch.bmm' if is_b else 'torch.mm'} of a {di} qint8 operand with a {do} qint8 operand that takes the raw-code route: the scale along the contracted axis is applied to the output (silently wrong when sizes coincide, RuntimeError otherwise)")
                 elif status == "unknown":
-                    chk.unknown("C07.R1", site, f"{what}: {val}")
+                    chk.unknown(r1, site, f"{what}: {val}")
                 elif status == "ok" and isinstance(val, T):
                     n += 1
                     ok = val.labels == tuple(want)
-                    chk.require("C07.R1", site, ok, f"{what} ({path[:50]}): raw-code route returns {val}", h.name, f"{h.name} result labels", what)
-                    chk.require("C07.R2", site, val.balanced(), f"{what}: payloads {sorted(val.codes)} matched by scales {list(val.scales)}", h.name, f"{h.name} payload/scale pairing", what)
-        chk.floor("C07.R1", n, 1, f"{h.name} raw-code route instances")
+                    chk.require(r1, site, ok, f"{what} ({path[:50]}): raw-code route returns {val}", h.name, f"{h.name} result labels", what)
+                    chk.require(r2, site, val.balanced(), f"{what}: payloads {sorted(val.codes)} matched by scales {list(val.scales)}", h.name, f"{h.name} payload/scale pairing", what)
+        chk.floor(r1, n, 1, f"{h.name} raw-code route instances")
         # primitive preconditions of a direct torch._int_mm call in the handler
         for p in paths_of(h.fn):
             if p.end[0] != "return" or p.end[1] is None:
@@ -439,5 +439,5 @@ def mm_handlers(chk):
             int8 = f.get(f"{inp}.qtype == qint8") is True and f.get(f"{oth}.qtype == qint8") is True
             rows = any(v is True and t.endswith(" > 16") for t, v in f.items())
             mods = sum(1 for t, v in f.items() if v is True and t.endswith(" % 8 == 0"))
-            chk.require("C07.R5", site, int8 and rows and mods >= 3, f"{h.name}: direct torch._int_mm call guarded by qint8 x qint8, rows > 16 and three sizes multiple of 8 (int8={int8}, rows={rows}, multiples={mods})", h.name, f"{h.name} int_mm guards",
+            chk.require(r5, site, int8 and rows and mods >= 3, f"{h.name}: direct torch._int_mm call guarded by qint8 x qint8, rows > 16 and three sizes multiple of 8 (int8={int8}, rows={rows}, multiples={mods})", h.name, f"{h.name} int_mm guards",
                         "a quantized matmul with 16 rows or sizes not multiple of 8 (CUDA error), or float8 payloads")
